@@ -293,6 +293,33 @@ def run(ctx):
         ctx.ok("c06.formula", "c06.formula|WallCons::resistance", "R_total += e/lambda (lambda > 0) | += resistance", f.loc())
     else:
         ctx.violation("c06.formula", "c06.formula|WallCons::resistance", "layer contributions are %s, expected e/lambda under lambda > 0 and `resistance`" % forms, f.loc())
+    # every layer contributes: the accumulation runs over self.layers itself (no layer is filtered out or skipped on the way)
+    from ..loops import classify_loops
+    from ..cfgq import inline_helper, iter_chain
+    lps = [l for l in classify_loops(prog, f) if l.get("chain") is not None]
+    ctx.require(len(lps) == 1, "WallCons::resistance: the loop over the layers was not found")
+    ch = lps[0]["chain"]
+    src = strip(ch.source)
+    adaptors = list(ch.adaptors())
+    for _ in range(3):
+        if src[0] == "call":
+            inl = inline_helper(prog, src)
+            if inl is None:
+                break
+            ch2 = iter_chain(strip(inl))
+            adaptors = list(ch2.adaptors()) + adaptors
+            src = strip(ch2.source)
+        else:
+            break
+    selecting = [a for a in adaptors if a in ("filter", "filter_map", "skip", "take", "skip_while", "take_while", "step_by")]
+    if leaf_name(src) == "self.layers" and not selecting:
+        ctx.ok("c06.formula", "c06.formula|WallCons::resistance|layers", "the sum runs over every layer of the construction (%s)" % adaptors, f.loc(lps[0]["line"]))
+    elif leaf_name(src) == "self.layers":
+        ctx.violation("c06.formula", "c06.formula|WallCons::resistance|layers", "the sum of layer resistances runs over self.layers through %s: layers that the selection drops "
+                      "contribute nothing (a resistance-only layer loses its R) and a missing material on such a layer no longer makes the U-value undefined" % selecting,
+                      f.loc(lps[0]["line"]))
+    else:
+        raise AnalysisError("WallCons::resistance: the loop runs over %s, not over self.layers" % show(src)[:80])
     errs = 0
     for b, i, s in f.body.statements():
         if s["s"] == "assign" and s["p"] == 0 and s["rv"]["r"] == "agg" and s["rv"].get("variant") == "Err":
